@@ -372,6 +372,9 @@ class Run:
             if asyncio.isfuture(ret) or hasattr(ret, 'add_done_callback'):
                 entry['ret'] = ['future']
                 self.futs.append((entry['n'], ret))
+                if asyncio.isfuture(ret):
+                    # whoever is handed this future awaits it in the loop of the process
+                    entry['ret_in_process_loop'] = ret.get_loop() is self.drv.loop
             else:
                 entry['ret'] = ['value', _jsonable(ret)]
         except BaseException as exc:  # noqa: BLE001
